@@ -61,13 +61,22 @@ type gennaroResult[E algebra.PrimeGroupElement[E, S], S algebra.PrimeFieldElemen
 }
 
 func runGennaro[E algebra.PrimeGroupElement[E, S], S algebra.PrimeFieldElement[S]](env Env[E, S], tag string, as accessstructures.Monotone, ids []sharing.ID, tamper *gennaroTamper[E, S]) (*gennaroResult[E, S], error) {
+	return runGennaroPol(env, tag, Policy{Build: func() (accessstructures.Monotone, error) { return as, nil }}, ids, tamper)
+}
+
+// runGennaroPol: every party constructs its OWN access-structure object (variant = party index).
+func runGennaroPol[E algebra.PrimeGroupElement[E, S], S algebra.PrimeFieldElement[S]](env Env[E, S], tag string, pol Policy, ids []sharing.ID, tamper *gennaroTamper[E, S]) (*gennaroResult[E, S], error) {
 	ctxs, err := makeContexts(tag, ids)
 	if err != nil {
 		return nil, err
 	}
 	group := env.Group()
 	parts := map[sharing.ID]*gennaro.Participant[E, S]{}
-	for _, id := range ids {
+	for i, id := range ids {
+		as, err := pol.Variant(i)
+		if err != nil {
+			return nil, err
+		}
 		p, err := guarded(func() (*gennaro.Participant[E, S], error) {
 			return gennaro.NewParticipant(ctxs[id], group, as, fiatshamir.Name, env.Reader(fmt.Sprintf("%s/party%d", tag, id)))
 		})
@@ -246,10 +255,14 @@ func c03Gennaro[E algebra.PrimeGroupElement[E, S], S algebra.PrimeFieldElement[S
 		env.Reach("refused")
 		return
 	}
-	res, err := runGennaro(env, "c03/"+pol.Name, as, pol.IDs, nil)
+	res, err := runGennaroPol(env, "c03/"+pol.Name, pol, pol.IDs, nil)
 	if err != nil {
 		env.Reach("refused: " + trunc(err.Error(), 60))
 		return
+	}
+	// the party that later checks / reconstructs builds its own policy object as well
+	if as2, err := pol.Variant(len(pol.IDs) + 1); err == nil {
+		as = as2
 	}
 	for id, e := range res.Errs {
 		env.Check("C03.a/no honest party aborts", false, fmt.Sprintf("party %d aborted in round %d: %v", id, res.Round[id], e))
@@ -288,6 +301,10 @@ func c03TrustedDealer[E algebra.PrimeGroupElement[E, S], S algebra.PrimeFieldEle
 		return
 	}
 	env.Reach("dealt")
+	// the holders reconstruct with their own policy object
+	if as2, err := pol.Variant(1); err == nil {
+		as = as2
+	}
 	m := map[sharing.ID]*mpc.BaseShard[E, S]{}
 	for id, s := range shards.Iter() {
 		m[id] = s
@@ -332,7 +349,7 @@ func C03Cases(tier string, seed int64) []Case {
 		c.MustReach = []string{"dkg-complete"}
 		cases = append(cases, c)
 	}
-	for _, pol := range smallPolicies(tier, seed, 4) {
+	for _, pol := range append(smallPolicies(tier, seed, 4), hierarchicalExtra()...) {
 		p := pol
 		cases = append(cases, both("C03/trusteddealer/"+p.Name, map[string]any{"dkg": "trusted dealer", "policy": p.Name},
 			func(e Env[*symalg.G, *symalg.F]) { c03TrustedDealer(e, p) }, nil))
